@@ -21,7 +21,7 @@ fn trait_set(it: &mut Item, existing: bool) {
 /// field level: sequences of <= k member instructions (as in C05)
 pub fn gen_member(ctx: &mut Ctx, k: usize) -> Option<FCase> {
     use crate::props::Space;
-    let sp = crate::props::c05::Prec { max_instr: k };
+    let sp = crate::props::c05::Prec { max_instr: k, host: 0 };
     let c = sp.gen(ctx)?;
     Some(FCase { item: crate::props::c05::to_item(&c.instrs), tags: c.tags })
 }
